@@ -176,6 +176,120 @@ example : Typed (wCfg true allDone) 3 .payload :=
 example : (0, EvType.payload) ∈ (run (wCfg true allDone) init secondPayloadOps).admitted ∧
     (wCfg true allDone).sel 3 0 .payload = true ∧ completedIn (run (wCfg true allDone) init secondPayloadOps).ledger 3 0 = true := by decide
 
+/-! ### delivered at least once across a stop: restart_redelivers -/
+
+/-- **restart_redelivers**: whatever state a stop left behind (`σ` is arbitrary: stopped before commit, between commit
+    and notification, inside a receiver, during retries, after a failed Finished write), `Run` calls the receiver
+    of every job on the shelf that is not parked by the context-error rule — unless the node stops again inside a
+    receiver during this very start-up (then `no_loss` still holds the job for the next start). -/
+theorem restart_redelivers (c : Cfg) (σ : St) (order : List Nat) (s r : Nat) (j : Job)
+    (hs : s ∈ order) (hr : r < c.nRefs) (hj : σ.shelf s r = some j) (hctx : j.err ≠ .ctx) :
+    ∃ new, (restart c σ order).ledger = new ++ σ.ledger ∧
+      ((∃ ty k o, o ≠ Outcome.crash ∧ Entry.call s r ty k o ∈ new) ∨ (∃ s' r' ty k, Entry.call s' r' ty k .crash ∈ new)) :=
+  restart_delivers σ order s r j hs hr hj hctx
+
+/-- at-least-once, end to end: for every admitted event and every selecting type-filtered subscriber, after any history
+    (stops anywhere) followed by a restart, the event has been completed, or its receiver is called during the restart,
+    or the restart itself is stopped inside a receiver, or the job is parked by the context-error rule. -/
+theorem delivered_at_least_once (c : Cfg) (ops : List Op) (order : List Nat) (r : Nat) (ty : EvType) (s : Nat) (t : EvType)
+    (hadm : (r, ty) ∈ (run c init ops).admitted) (hs : s < c.nSubs) (hso : s ∈ order) (hsel : c.sel s r ty = true)
+    (htyp : Typed c s t) :
+    completedIn (run c init ops).ledger s r = true ∨
+    (∃ j, (run c init ops).shelf s r = some j ∧ j.err = .ctx) ∨
+    ∃ new, (restart c (run c init ops) order).ledger = new ++ (run c init ops).ledger ∧
+      ((∃ ty' k o, o ≠ Outcome.crash ∧ Entry.call s r ty' k o ∈ new) ∨ (∃ s' r' ty' k, Entry.call s' r' ty' k .crash ∈ new)) := by
+  have hinv := (Inv.init c).run ops
+  rcases hinv.loss r ty s t hadm hs hsel htyp with ⟨j, hj, _⟩ | hc
+  · by_cases hctx : j.err = .ctx
+    · exact .inr (.inl ⟨j, hj, hctx⟩)
+    · exact .inr (.inr (restart_delivers _ order s r j hso (hinv.dagLt r (hinv.admDag r ty hadm)) hj hctx))
+  · exact .inl hc
+
+/-! ### eventual_delivery, failed_visible -/
+
+/-- **eventual_delivery**: let `σ0` be ANY state (e.g. what a stop left behind) without context-error jobs, and assume
+    that from now on no receiver call stops the node, hits a storage fault or returns the context error (`CalmFrom`;
+    the receivers are otherwise arbitrary: done / notDone / error / fatal in any pattern). Start the notifiers (`Run`,
+    any order that covers them), then let any sequence of ops happen that contains no stop and whose AfterCommit
+    notifications reach every notifier (admissions, payload arrivals, external Finished, timers firing in ANY order).
+    Whenever the node is at rest (no retry loop alive, no notification pending), every job still on a shelf has
+    spent its retry budget: `retries ≥ maxRetries` (reached by counting, or set by a fatal error). -/
+theorem eventual_delivery (c : Cfg) (σ0 : St) (order : List Nat) (ops : List Op)
+    (hctx : NoCtx σ0) (hcalm : CalmFrom c σ0) (hord : ∀ s, s < c.nSubs → s ∈ order)
+    (hops : ∀ op, op ∈ ops → CalmOp c op)
+    (hrest : (run c (restart c σ0 order) ops).running = [] ∧ (run c (restart c σ0 order) ops).pending = [])
+    (s r : Nat) (j : Job) (hs : s < c.nSubs) (hr : r < c.nRefs)
+    (hj : (run c (restart c σ0 order) ops).shelf s r = some j) : c.maxRetries ≤ j.retries := by
+  obtain ⟨h1, h2⟩ := restart_ok hcalm order
+  have hcov : Covered c (restart c σ0 order) := fun s r hs hr => h2 hctx s (hord s hs) r hr
+  exact ((hcov.run (hcalm.mono h1.grows) ops hops).quiescent hrest.1 hrest.2) s r j hs hr hj
+
+/-- the same without any stop at all, from the empty node -/
+theorem eventual_delivery_from_start (c : Cfg) (ops : List Op) (hcalm : CalmFrom c init)
+    (hops : ∀ op, op ∈ ops → CalmOp c op)
+    (hrest : (run c init ops).running = [] ∧ (run c init ops).pending = [])
+    (s r : Nat) (j : Job) (hs : s < c.nSubs) (hr : r < c.nRefs) (hj : (run c init ops).shelf s r = some j) :
+    c.maxRetries ≤ j.retries := by
+  have hcov : Covered c init := by intro s r _ _ j hj; simp [init] at hj
+  exact ((hcov.run hcalm ops hops).quiescent hrest.1 hrest.2) s r j hs hr hj
+
+/-- **failed_visible**: a job that spent its budget is listed by GetFailedEvents (threshold ≤ budget: fact_retry_constants) -/
+theorem failed_visible (c : Cfg) (hthr : c.failedThreshold ≤ c.maxRetries) (σ : St) (s r : Nat) (j : Job) (hr : r < c.nRefs)
+    (hj : σ.shelf s r = some j) (hb : c.maxRetries ≤ j.retries) : r ∈ failedEvents c σ s := by
+  unfold failedEvents
+  refine List.mem_filter.mpr ⟨List.mem_range.mpr hr, ?_⟩
+  simp only [hj, decide_eq_true_eq]; omega
+
+/-- the two together with no_loss: at rest after a calm suffix, every admitted event is completed or visible as failed -/
+theorem completed_or_visible (c : Cfg) (hthr : c.failedThreshold ≤ c.maxRetries) (ops0 : List Op) (order : List Nat) (ops : List Op)
+    (hctx : NoCtx (run c init ops0)) (hcalm : CalmFrom c (run c init ops0)) (hord : ∀ s, s < c.nSubs → s ∈ order)
+    (hops : ∀ op, op ∈ ops → CalmOp c op)
+    (hrest : (run c (restart c (run c init ops0) order) ops).running = [] ∧ (run c (restart c (run c init ops0) order) ops).pending = [])
+    (r : Nat) (ty : EvType) (s : Nat) (t : EvType)
+    (hadm : (r, ty) ∈ (run c (restart c (run c init ops0) order) ops).admitted) (hs : s < c.nSubs) (hsel : c.sel s r ty = true)
+    (htyp : Typed c s t) :
+    completedIn (run c (restart c (run c init ops0) order) ops).ledger s r = true ∨
+    r ∈ failedEvents c (run c (restart c (run c init ops0) order) ops) s := by
+  have e : run c (restart c (run c init ops0) order) ops = run c init (ops0 ++ .restart order :: ops) := by
+    simp [run, List.foldl_append, step]
+  have hinv : Inv c (run c (restart c (run c init ops0) order) ops) := by rw [e]; exact (Inv.init c).run _
+  rcases hinv.loss r ty s t hadm hs hsel htyp with ⟨j, hj, _⟩ | hc
+  · have hr := hinv.dagLt r (hinv.admDag r ty hadm)
+    exact .inr (failed_visible c hthr _ s r j hr hj (eventual_delivery c _ order ops hctx hcalm hord hops hrest s r j hs hr hj))
+  · exact .inl hc
+
+/-- non-vacuity: a subscriber that never completes; one admission, AfterCommit, 19 timer firings: at rest, budget spent, listed -/
+def neverDone : Nat → Nat → Nat → Outcome := fun _ _ _ => .notDone
+def exhaustOps : List Op :=
+  [.add { ref := 0 }, .afterCommit [0, 1, 2, 3, 4]] ++ List.replicate 19 (.fire 1 0)
+
+example : (run (wCfg true neverDone) init exhaustOps).running = [] ∧ (run (wCfg true neverDone) init exhaustOps).pending = [] ∧
+    (run (wCfg true neverDone) init exhaustOps).shelf 1 0 = some { type := .tx, retries := 20, err := .incomplete } ∧
+    failedEvents (wCfg true neverDone) (run (wCfg true neverDone) init exhaustOps) 1 = [0] := by decide
+example : CalmFrom (wCfg true neverDone) init := fun _ _ _ _ => rfl
+example : ∀ op, op ∈ exhaustOps → CalmOp (wCfg true neverDone) op := by
+  intro op h
+  simp only [exhaustOps, List.mem_append, List.mem_cons, List.mem_replicate] at h
+  rcases h with (rfl | rfl | h) | ⟨_, rfl⟩
+  · trivial
+  · intro s hs; simp only [wCfg] at hs; have : s = 0 ∨ s = 1 ∨ s = 2 ∨ s = 3 ∨ s = 4 := by omega
+    rcases this with rfl | rfl | rfl | rfl | rfl <;> simp
+  · cases h
+  · trivial
+
+/-- **parked_witness** (modelled as coded, nuts-node issue 2569): a job whose last error ends in the json-ld
+    "context not allowed" text is NOT replayed by Run. After a stop it rests on the shelf with retries below the
+    threshold: not retried, not listed by GetFailedEvents. This is why eventual_delivery excludes that error. -/
+def ctxOnce : Nat → Nat → Nat → Outcome := fun s _ k => if s = 3 ∧ k = 0 then .failCtx else .done
+def parkedOps : List Op :=
+  [.add { ref := 0, withPayload := true }, .afterCommit [0, 1, 2, 3, 4], .afterCommit [0, 1, 2, 3, 4], .crash, .restart [0, 1, 2, 3, 4]]
+
+theorem parked_witness :
+    (run (wCfg true ctxOnce) init parkedOps).shelf 3 0 = some { type := .payload, retries := 1, err := .ctx } ∧
+    (run (wCfg true ctxOnce) init parkedOps).running = [] ∧
+    failedEvents (wCfg true ctxOnce) (run (wCfg true ctxOnce) init parkedOps) 3 = [] ∧
+    ((run (wCfg true ctxOnce) init parkedOps).ledger.filter (Entry.isCallOf 3 0)).length = 1 := by decide
+
 /-! ### shared_key_witness -/
 
 /-- **shared_key_witness**: transaction and payload event share the job key. A subscriber WITHOUT a type filter
